@@ -151,6 +151,10 @@ def fs_ops(eng, r, args=None):
     pf = PathFolder(eng, r.events, args)
     out = []
     for e in r.events:
+        if e.kind == "call" and e.callee.split("::")[-1] in ("copy_file", "delete_file") and not FS_OPS.search(e.callee):
+            nm, n = {"copy_file": ("copy", 2), "delete_file": ("remove_file", 1)}[e.callee.split("::")[-1]]
+            out.append((nm, [pf.norm(a) for a in e.rargs[:n]], e))
+            continue
         if e.kind == "call" and FS_OPS.search(e.callee):
             name = e.callee.split("::")[-1]
             if name in ("try_create_folder", "create_dir_all", "create_dir", "set_permissions"):
@@ -201,8 +205,12 @@ def check(rep, tier, seed):
             return None
         return p
 
+    HELPERS = {"copy_file": ("copy", 2), "delete_file": ("remove_file", 1)}      # analysed as units of their own, events elsewhere
+
     def helper_auto(engine, callee, caller):
         if re.search(r"(logger::|::fmt$|::clone$|::to_string$|::drop$|service::|misc_helpers::)", callee):
+            return None
+        if callgraph.last_seg(callee) in HELPERS and not caller.endswith(callgraph.last_seg(callee)):
             return None
         c = cg.resolve(callee, caller)
         if len(c) != 1:
@@ -238,7 +246,7 @@ def check(rep, tier, seed):
                 continue
             # a shorter list is acceptable only as an error exit: the path condition forces one of the performed operations to have failed.
             # A path that skips operations because of the STATE it finds (e.g. "a backup already exists") breaks "from every initial state".
-            all_ok = [e.ret.discr() == 0 for e in evs if isinstance(e.ret, Sym)]
+            all_ok = [e.ret.discr() == 0 for e in evs if isinstance(e.ret, Sym) and e.callee.split("::")[-1] not in ("copy_file", "delete_file")]
             rs, _m, _dt, _zm = check_sat(r.pc + all_ok)
             if l != full[:len(l)] or rs != "unsat":
                 ok = False
@@ -248,6 +256,11 @@ def check(rep, tier, seed):
         rep.extra.setdefault("units", {})[label] = [[n] + a for n, a in full]
         return full
 
+    hcopy = unit(ctx.one("linux::copy_file"), ["<SRC>", "<DST>"], "copy_file(src, dst)")
+    hdel = unit(ctx.one("linux::delete_file"), ["<FILE>"], "delete_file(file)")
+    ok_h = hcopy == [("copy", ["<SRC>", "<DST>"])] and hdel == [("remove_file", ["<FILE>"])]
+    rep.add(Query("copy_file(src, dst) is exactly fs::copy(src -> dst) and delete_file(f) exactly fs::remove_file(f) (their calls are read as these operations elsewhere)", "holds" if ok_h else "violated",
+                  "copy_file %s delete_file %s" % (hcopy, hdel), 0, "mirsym", key="C17.unit:helpers", reproduced=None))
     backup = unit(ctx.one("linux::backup_files"), [], "backup_files")
     copyf = unit(ctx.one("linux::copy_files"), ["<SRC>"], "copy_files(src)")
     setupf = unit(ctx.one("linux::setup_service"), ["<NAME>", "<DIR>"], "setup_service(name, dir)")
@@ -338,14 +351,55 @@ def check(rep, tier, seed):
         cmds.setdefault(key, []).append((seq, r))
     rep.extra["commands"] = {k: [[(s[1] if s[0] != "exists" else "exists " + s[1]) if s[0] != "fs" else [s[1][0]] + s[1][1] for s in seq] for seq, _r in v][:2] for k, v in cmds.items()}
     check_commands(rep, cmds)
+    check_extension_guard(rep)
     rep.bounds["setup"] = "all %d complete paths of main, all paths of the file-handling units; one command per run" % len(mpaths)
     rep.assumptions += ["file operations succeed (a failed copy is logged and skipped by the code: then the property does not hold and the tool says so in its log)",
                         "the setup directory <EXE> is not one of the system locations", "fs::copy copies the content exactly; systemctl (stop/start/enable) does not modify the four files"]
-    rep.outside_claim += ["Windows code paths", "the extension's choice of when to call backup/restore/purge (service_main.rs)", "partial failure, concurrent modification, permissions",
+    rep.outside_claim += ["Windows code paths", "the extension's monitor loop beyond the restore/purge guard (when it calls backup and install)", "partial failure, concurrent modification, permissions",
                           "running the backed-up executable to read its version (restore panics before any file is touched if that fails)"]
     rep.trusted += ["mirsym", "z3 (arrays)", "path folding (lib/p_c17.py PathFolder)"]
     import batteries
     batteries.confirm(rep, "C17")
+
+
+def check_extension_guard(rep):
+    """proxy_agent_extension service_main::restore_purge_proxyagent: `restore` is run only when the reported status is Error, `purge`
+    only when it is Success, nothing while Transitioning (a purge before the outcome is known removes the backup a later restore needs)."""
+    try:
+        ectx = Ctx("ext")
+        p = ectx.one("service_main::restore_purge_proxyagent")
+    except Inconclusive as ex:
+        rep.add(Query("extension restore/purge guard located", "inconclusive", str(ex)[:200], 0, "mirsym", key="C17.ext"))
+        return
+    eng = ectx.engine()
+    paths = eng.explore(p)
+    rep.functions_encoded.append("ProxyAgentExt::" + p)
+    fidx = ectx.field("StatusObj", "status")
+    want = {"restore": "error", "purge": "success"}
+    seen = set()
+    for i, r in enumerate(paths):
+        if r.status != "return":
+            continue
+        st = origin(r.args[0]).child("*").child(("f", fidx))
+        cmds = []
+        for e in r.events:
+            if e.kind == "call" and e.callee.endswith("Command::arg") and isinstance(origin(e.rargs[1]), StrV):
+                cmds.append(origin(e.rargs[1]).e.as_string())
+        for c in cmds:
+            seen.add(c)
+            if c not in want:
+                continue
+            eqs = [e for e in r.events if e.kind == "streq" and any(same_origin(x, st) or is_part_of(origin(x), st) for x in e.rargs)
+                   and any(isinstance(origin(x), StrV) and origin(x).e.as_string() == want[c] for x in e.rargs)]
+            ok = bool(eqs) and check_sat(r.pc + [z3.Not(eqs[0].extra)])[0] == "unsat"
+            rep.add(Query("extension path %d: the setup tool is run with `%s` only when the reported status is \"%s\"" % (i, c, want[c]), "holds" if ok else "violated",
+                          "" if ok else "status comparisons on the path: %s" % [repr(e.rargs[1])[:30] for e in r.events if e.kind == "streq"], 0, "mirsym+z3", key="C17.ext:" + c, reproduced=None))
+        ran = bool(cmds)
+        retv = r.ret
+        if isinstance(retv, Scalar) and (z3.is_true(z3.simplify(retv.e)) or z3.is_false(z3.simplify(retv.e))):
+            ok = z3.is_true(z3.simplify(retv.e)) == ran
+            rep.add(Query("extension path %d: reports `handled` exactly when restore or purge was run" % i, "holds" if ok else "violated", "", 0, "mirsym", key="C17.ext:handled", reproduced=None))
+    rep.add(Query("witness: the extension guard has restore and purge paths", "witness-hit" if {"restore", "purge"} <= seen else "witness-missed", "%s" % sorted(seen), 0, "mirsym"))
 
 
 def command_of(seq, r):
